@@ -50,6 +50,8 @@ func (c *Case) write(w *bufio.Writer) {
 		switch o.Kind {
 		case "put", "crashtorn", "crashtornhdr":
 			fmt.Fprintf(w, "%s %s %s\n", o.Kind, hx(o.K), valSpec(o.V))
+		case "growchain", "thinchain", "pushsplit", "killsegment", "rewritechain":
+			fmt.Fprintf(w, "%s %d\n", o.Kind, len(o.V))
 		case "del", "get", "has":
 			fmt.Fprintf(w, "%s %s\n", o.Kind, hx(o.K))
 		case "getappend":
@@ -59,6 +61,8 @@ func (c *Case) write(w *bufio.Writer) {
 			for _, s := range o.Sub {
 				if s.Kind == "put" {
 					parts = append(parts, fmt.Sprintf("%d:put:%s:%s", s.At, hx(s.K), hx(s.V)))
+				} else if isMacro(s.Kind) {
+					parts = append(parts, fmt.Sprintf("%d:%s:%s", s.At, s.Kind, hx(s.V)))
 				} else {
 					parts = append(parts, fmt.Sprintf("%d:%s:%s", s.At, s.Kind, hx(s.K)))
 				}
@@ -140,6 +144,12 @@ func readCases(path string) []*Case {
 			cur = nil
 		case "put", "getappend", "crashtorn", "crashtornhdr":
 			cur.Ops = append(cur.Ops, Op{Kind: fs[0], K: unhx(fs[1]), V: unhx(fs[2])})
+		case "growchain", "thinchain", "pushsplit", "killsegment", "rewritechain":
+			n := 0
+			if len(fs) > 1 {
+				n, _ = strconv.Atoi(fs[1])
+			}
+			cur.Ops = append(cur.Ops, Op{Kind: fs[0], V: make([]byte, n)})
 		case "del", "get", "has":
 			cur.Ops = append(cur.Ops, Op{Kind: fs[0], K: unhx(fs[1])})
 		case "compactx", "scan", "backup":
@@ -151,6 +161,9 @@ func readCases(path string) []*Case {
 					s := SubOp{At: at, Kind: q[1], K: unhx(q[2])}
 					if q[1] == "put" {
 						s.V = unhx(q[3])
+					}
+					if isMacro(q[1]) {
+						s.K, s.V = nil, unhx(q[2])
 					}
 					o.Sub = append(o.Sub, s)
 				}
@@ -372,6 +385,70 @@ func (h *harness) genCase(r *rng, name, stream string, nops int) *Case {
 			c.Ops = append(c.Ops, Op{Kind: "put", K: c.Pool[r.intn(14)], V: patternBytes(r.intn(60), byte(r.next()))})
 		}
 		c.Ops = append(c.Ops, Op{Kind: "compact"}, Op{Kind: "crashreopen"}, Op{Kind: "items"})
+		return c
+	}
+	if stream == "ops" && (h.prop == "C01" || h.prop == "C11" || h.prop == "C02" || h.prop == "C05" || h.prop == "C15" || h.prop == "C12") && (r.chance(20) || os.Getenv("VERIF_ONLY_SHAPE") != "") {
+		// shape exploration: adaptive macro operations steer the real index / log into rare states
+		h.stat("gen.shape")
+		c.Cfg.MaxSeg = []uint32{4096, 65536}[r.intn(2)]
+		if h.prop == "C05" || h.prop == "C15" {
+			c.Cfg.MaxSeg = []uint32{1024, 2048, 4096}[r.intn(3)]
+		}
+		c.Pool = keyPool(r, c.Cfg.HashSeed, 20+r.intn(60), 0)
+		for _, k := range c.Pool {
+			c.Ops = append(c.Ops, Op{Kind: "put", K: k, V: patternBytes(r.intn(4), byte(r.next()))})
+		}
+		mac := func() Op {
+			switch r.pick(26, 12, 10, 22, 8, 10, 12) {
+			case 0:
+				return Op{Kind: "growchain", V: make([]byte, 10+r.intn(150))}
+			case 1:
+				return Op{Kind: "thinchain"}
+			case 2:
+				return Op{Kind: "emptybucket"}
+			case 3:
+				return Op{Kind: "pushsplit", V: make([]byte, 20+r.intn(250))}
+			case 4:
+				return Op{Kind: "killsegment"}
+			case 5:
+				return Op{Kind: "rewritechain"}
+			}
+			return Op{Kind: "compact"}
+		}
+		for i, n := 0, 5+r.intn(10); i < n; i++ {
+			switch r.pick(60, 12, 8, 5, 5, 10) {
+			case 0:
+				c.Ops = append(c.Ops, mac())
+			case 1:
+				// a scan paused at random positions while the shape changes underneath it
+				o := Op{Kind: "scan"}
+				for j, m := 0, 1+r.intn(3); j < m; j++ {
+					mo := mac()
+					if mo.Kind == "emptybucket" {
+						mo.Kind = "thinchain"
+					}
+					at := r.intn(200)
+					if r.chance(50) {
+						at = onLongestChain
+					}
+					o.Sub = append(o.Sub, SubOp{At: at, Kind: mo.Kind, V: mo.V})
+				}
+				sort.SliceStable(o.Sub, func(a, b int) bool { return o.Sub[a].At < o.Sub[b].At })
+				c.Ops = append(c.Ops, o)
+			case 2:
+				c.Ops = append(c.Ops, Op{Kind: "reopen"})
+			case 3:
+				c.Ops = append(c.Ops, Op{Kind: "crashreopen"})
+			case 4:
+				c.Ops = append(c.Ops, Op{Kind: "backup"})
+			case 5:
+				c.Ops = append(c.Ops, Op{Kind: "items"})
+			}
+			if r.chance(40) {
+				c.Ops = append(c.Ops, Op{Kind: "dump"})
+			}
+		}
+		c.Ops = append(c.Ops, Op{Kind: "items"}, Op{Kind: "dump"}, Op{Kind: "reopen"}, Op{Kind: "items"})
 		return c
 	}
 	if (h.prop == "C01" || h.prop == "C11") && stream == "ops" && r.chance(30) {
@@ -744,6 +821,7 @@ type session struct {
 	r       *rng
 	base    *simfs.Image // image the current sim started from
 	bkNo    int
+	fresh   int // counter of keys made up by macro operations
 }
 
 func (s *session) readSeg(name string) []byte {
@@ -799,6 +877,191 @@ func (s *session) checkpoint(withDump bool) {
 	s.h.emit("dir %s handles=%d", dirLine(s.sim.Snapshot()), s.sim.OpenHandles())
 	if withDump {
 		s.h.emit("%s", dumpLine(s.db))
+	}
+}
+
+func isMacro(kind string) bool {
+	switch kind {
+	case "growchain", "thinchain", "pushsplit", "killsegment", "rewritechain":
+		return true
+	}
+	return false
+}
+
+// ---- adaptive macro operations ----------------------------------------------------------------
+// They look at the real index (and segments) and expand into ordinary put/del lines, so that the
+// driver needs to know nothing about them; they steer a case into states random keys rarely reach:
+// very long chains, chains with holes, splits of a chosen bucket, segments with no live record.
+
+type chainInfo struct {
+	idx     int      // main bucket index
+	buckets int      // buckets in the chain
+	hashes  []uint32 // hashes of the slots, bucket by bucket
+}
+
+func (s *session) chains() (d pogreb.VerifIndexDump, out []chainInfo, ok bool) {
+	d, err := s.db.VerifDumpIndex()
+	if err != nil {
+		return d, nil, false
+	}
+	nextOf := func(b []byte) int64 { return int64(binary.LittleEndian.Uint64(b[496:504])) }
+	for i := 0; 512+(i+1)*512 <= len(d.Main); i++ {
+		ci := chainInfo{idx: i}
+		b := d.Main[512+i*512 : 512+(i+1)*512]
+		for hops := 0; hops < 4096; hops++ {
+			ci.buckets++
+			for j := 0; j < 31; j++ {
+				sl := b[j*16 : j*16+16]
+				if binary.LittleEndian.Uint32(sl[12:16]) == 0 {
+					break
+				}
+				ci.hashes = append(ci.hashes, binary.LittleEndian.Uint32(sl[0:4]))
+			}
+			off := nextOf(b)
+			if off == 0 || off+512 > int64(len(d.Overflow)) {
+				break
+			}
+			b = d.Overflow[off : off+512]
+		}
+		out = append(out, ci)
+	}
+	return d, out, len(out) > 0
+}
+
+func bucketOf(level uint8, split uint32, h uint32) uint32 {
+	b := h & (uint32(1)<<level - 1)
+	if b < split {
+		b = h & (uint32(1)<<(level+1) - 1)
+	}
+	return b
+}
+
+// freshKey returns a key not used before in this case whose hash satisfies pred.
+func (s *session) freshKey(pred func(h uint32) bool) []byte {
+	seed := s.db.VerifHashSeed()
+	for tries := 0; tries < 2000000; tries++ {
+		s.fresh++
+		k := []byte(fmt.Sprintf("m%x", s.fresh))
+		if pred(murmur32(k, seed)) {
+			s.c.Pool = append(s.c.Pool, k)
+			return k
+		}
+	}
+	return nil
+}
+
+func (s *session) longest(cs []chainInfo) chainInfo {
+	best := cs[0]
+	for _, c := range cs {
+		if len(c.hashes) > len(best.hashes) {
+			best = c
+		}
+	}
+	return best
+}
+
+func (s *session) macro(kind string, n int) {
+	if s.db == nil {
+		return
+	}
+	d, cs, ok := s.chains()
+	if !ok {
+		return
+	}
+	s.h.stat("macro." + kind)
+	put := func(k []byte) {
+		if k != nil {
+			s.userOp(SubOp{Kind: "put", K: k, V: patternBytes(s.r.intn(3), byte(s.r.next()))})
+		}
+	}
+	keysByHash := func() map[uint32][][]byte {
+		m := map[uint32][][]byte{}
+		for _, k := range s.c.Pool {
+			hv := s.db.VerifHash(k)
+			m[hv] = append(m[hv], k)
+		}
+		return m
+	}
+	switch kind {
+	case "growchain":
+		// n new keys into the longest chain (they agree with one of its keys in the low 16 bits, so
+		// they stay together through many splits)
+		target := s.longest(cs)
+		want := uint32(target.idx)
+		if len(target.hashes) > 0 {
+			want = target.hashes[0] & 0xffff
+			for i := 0; i < n; i++ {
+				put(s.freshKey(func(h uint32) bool { return h&0xffff == want }))
+			}
+			return
+		}
+		for i := 0; i < n; i++ {
+			put(s.freshKey(func(h uint32) bool { return bucketOf(d.Level, d.SplitBucketIdx, h) == want }))
+		}
+	case "pushsplit":
+		// n new keys that do NOT land in the longest chain: the table grows, the split pointer moves
+		target := s.longest(cs)
+		for i := 0; i < n; i++ {
+			put(s.freshKey(func(h uint32) bool {
+				return bucketOf(d.Level, d.SplitBucketIdx, h) != uint32(target.idx) && (len(target.hashes) == 0 || h&7 != target.hashes[0]&7)
+			}))
+		}
+	case "thinchain":
+		// delete about half of the keys of the longest chain
+		target := s.longest(cs)
+		byHash := keysByHash()
+		for _, hv := range target.hashes {
+			if s.r.chance(50) {
+				for _, k := range byHash[hv] {
+					s.userOp(SubOp{Kind: "del", K: k})
+				}
+			}
+		}
+	case "rewritechain":
+		// overwrite about a third of the keys of the longest chain (existing keys behind holes)
+		target := s.longest(cs)
+		byHash := keysByHash()
+		for _, hv := range target.hashes {
+			if s.r.chance(33) {
+				for _, k := range byHash[hv] {
+					put(k)
+				}
+			}
+		}
+	case "killsegment":
+		// overwrite every key whose record lives in the oldest sealed segment: it holds no live record then
+		segs := s.db.VerifSegments()
+		var victim *pogreb.VerifSegment
+		for i := range segs {
+			if segs[i].Full && (victim == nil || segs[i].SequenceID < victim.SequenceID) {
+				victim = &segs[i]
+			}
+		}
+		if victim == nil {
+			return
+		}
+		byHash := keysByHash()
+		seen := map[string]bool{}
+		scanBuckets := func(file []byte) {
+			for off := 512; off+512 <= len(file); off += 512 {
+				for j := 0; j < 31; j++ {
+					sl := file[off+j*16 : off+j*16+16]
+					if binary.LittleEndian.Uint32(sl[12:16]) == 0 {
+						break
+					}
+					if binary.LittleEndian.Uint16(sl[4:6]) == victim.ID {
+						for _, k := range byHash[binary.LittleEndian.Uint32(sl[0:4])] {
+							if !seen[string(k)] {
+								seen[string(k)] = true
+								put(k)
+							}
+						}
+					}
+				}
+			}
+		}
+		scanBuckets(d.Main)
+		scanBuckets(d.Overflow)
 	}
 }
 
@@ -1180,6 +1443,11 @@ func (s *session) crashTorn(o Op, hdr bool) {
 
 func (s *session) userOp(u SubOp) {
 	h := s.h
+	switch u.Kind {
+	case "growchain", "thinchain", "pushsplit", "killsegment", "rewritechain":
+		s.macro(u.Kind, len(u.V))
+		return
+	}
 	if u.Kind == "compact" {
 		// a maintenance task started while another one runs must be refused
 		_, err := s.db.Compact()
@@ -1209,7 +1477,8 @@ func (s *session) scan(o Op) {
 	n := 0
 	var last []byte
 	for {
-		for len(sub) > 0 && (sub[0].At <= n || (sub[0].At == onChainKey && last != nil && s.inFirstChain(last))) {
+		for len(sub) > 0 && (sub[0].At <= n || (sub[0].At == onChainKey && last != nil && s.inFirstChain(last)) ||
+			(sub[0].At == onLongestChain && last != nil && s.inLongestChain(last))) {
 			if sub[0].Kind == "compact" {
 				// a whole compaction between two Next calls (segments the scan has queued items of may go away)
 				s.compact(Op{Kind: "compact"})
@@ -1248,6 +1517,19 @@ func (s *session) scan(o Op) {
 // onChainKey as SubOp.At: the sub-operation fires as soon as the scan has returned a key of the
 // case's first chain (the keys whose hash agrees with the first pool key's in the low 3 bits).
 const onChainKey = 1 << 30
+
+// onLongestChain as SubOp.At: fires as soon as the scan has returned a key stored in the chain that
+// currently holds the most keys (the scan is then positioned inside it).
+const onLongestChain = 1<<30 + 1
+
+func (s *session) inLongestChain(k []byte) bool {
+	d, cs, ok := s.chains()
+	if !ok {
+		return false
+	}
+	l := s.longest(cs)
+	return l.buckets >= 2 && bucketOf(d.Level, d.SplitBucketIdx, s.db.VerifHash(k)) == uint32(l.idx)
+}
 
 func (s *session) inFirstChain(k []byte) bool {
 	if len(s.c.Pool) == 0 {
@@ -1398,6 +1680,8 @@ func (h *harness) runCase(c *Case, stream string, r *rng) {
 			if c.Cfg.SyncMode && err == nil {
 				h.emit("syncpoint")
 			}
+		case "growchain", "thinchain", "pushsplit", "killsegment", "rewritechain":
+			s.macro(o.Kind, len(o.V))
 		case "emptybucket":
 			// adaptive: delete every key stored in one non-tail bucket of a multi-bucket chain
 			for _, k := range s.nonTailBucketKeys() {
